@@ -359,9 +359,7 @@ def trad(t, x):
     return z3.Select(col(t, "r").arr, x)
 
 
-def all_nodes(n):
-    x = z3.Int(fresh_name("x"))
-    return z3.Lambda([x], z3.And(x >= 0, x < n))
+NODES = z3.Const("all_nodes_of_the_table", z3.ArraySort(_I, _B))  # the node set {0, ..., n-1} (defined in tree_vocabulary)
 
 
 def share_term(t, acc, x, nk=NK, kid=KID):
@@ -405,11 +403,12 @@ def tree_vocabulary(E, old):
     E.assume(z3.ForAll([x, k, k2], z3.Implies(z3.And(0 <= k, k < k2, k2 < NK(x)), KID(x, k) < KID(x, k2))))
     E.assume(z3.ForAll([c], z3.Implies(z3.And(Rn(c), sel(P, c) >= 0), z3.And(0 <= RANK(c), RANK(c) < NK(sel(P, c)), KID(sel(P, c), RANK(c)) == c))))
     E.assume(z3.ForAll([x], z3.Implies(Rn(x), SHARE(x) == share_term(t, acc, x))))
+    E.assume(z3.ForAll([x], sel(NODES, x) == Rn(x)))
     E.assume(SUMV(EMPTY) == 0)
     E.assume(z3.ForAll([S, x], z3.Implies(z3.And(Rn(x), z3.Not(sel(S, x))), SUMV(z3.Store(S, x, z3.BoolVal(True))) == SUMV(S) + SHARE(x))))
     E.assumptions.add("ghost definitions (C14 whole-tree statement): children_count / child / child_rank (children in table order), "
                       "node_distance (non-negative root of the squared centre distance of two nodes; defining property instantiated at the edges of the leave step), node_share (the per-node inclusion-exclusion share, "
-                      f"written out for at most {MAXK} children), sum_of_node_shares (fold of node_share over a finite node set)")
+                      f"written out for at most {MAXK} children), sum_of_node_shares (fold of node_share over a finite node set), all_nodes_of_the_table (the set of row positions)")
 
 
 def gvfc_wf(which):
@@ -485,6 +484,7 @@ def gvfc_Ql(E, v, x, val, ctx):
 
 def gvfc_J(E, v, ENT, LEFT, ctx):
     """volume so far = sum of the shares of the nodes left so far"""
+    E.ghost["c14-node-set-of-the-last-J"] = LEFT
     return R(v["volume"]) == SUMV(LEFT)
 
 
@@ -551,17 +551,15 @@ def _roots_equal(a, b):
 
 def gvfc_post(E, v, o):
     acc = to_z3(o["accuracy"], "int")
-    return z3.If(acc <= 9, R(v["result"]) == SUMV(all_nodes(nof(o["tree"]))), R(v["result"]) == MCV)
+    return z3.If(acc <= 9, R(v["result"]) == SUMV(NODES), R(v["result"]) == MCV)
 
 
 def gvfc_post_hint(E, vars):
-    """the node set the traversal covered (the subtree of node 0) is the set of all nodes"""
-    Sub = E.ghost.get("last-traverse-Sub")
-    if Sub is None:
+    """the node set the traversal covered (the subtree of node 0, the set the rule's conclusion speaks about) is the set of all nodes"""
+    S_all = E.ghost.get("c14-node-set-of-the-last-J")
+    if S_all is None:
         return
-    x = z3.Int(fresh_name("x"))
-    E.prove("_get_volume_frustum_cone/step/traversal-covered-exactly-the-nodes-of-the-table",
-            z3.Lambda([x], Sub(x)) == all_nodes(nof(vars["tree"])), "annotation")
+    E.prove("_get_volume_frustum_cone/step/traversal-covered-exactly-the-nodes-of-the-table", S_all == NODES, "annotation")
 
 
 def register(Rg: Registry):
@@ -660,7 +658,7 @@ def register(Rg: Registry):
         lvl = level_of(o["accuracy"])
         if lvl is None:
             return False
-        return z3.If(to_z3(lvl, "int") <= 9, R(v["result"]) == SUMV(all_nodes(nof(o["tree"]))), R(v["result"]) == MCV)
+        return z3.If(to_z3(lvl, "int") <= 9, R(v["result"]) == SUMV(NODES), R(v["result"]) == MCV)
 
     def gv_level_ok(E, v, o):
         lvl = level_of(o["accuracy"])
